@@ -128,8 +128,14 @@ impl<'a> Ctx<'a> {
             Ok(e) => e,
             Err(e) => return Probe::Died(format!("cannot locate the harness executable: {e}")),
         };
+        // Under AddressSanitizer the address space cannot be limited (the shadow memory needs
+        // terabytes of it): the resident set is limited through the sanitizer's own option instead.
+        let limit = match std::env::var("ASAN_OPTIONS") {
+            Ok(o) => format!("export ASAN_OPTIONS='{o}:hard_rss_limit_mb={}'", mem_kb / 1024 + 512),
+            Err(_) => format!("ulimit -v {mem_kb}"),
+        };
         let cmd = format!(
-            "ulimit -v {mem_kb}; exec timeout -s KILL {timeout_s} '{}' {} --tier {} --seed {} --probe-case {} {} >/dev/null 2>&1",
+            "{limit}; exec timeout -s KILL {timeout_s} '{}' {} --tier {} --seed {} --probe-case {} {} >/dev/null 2>&1",
             exe.display(),
             self.prop,
             if self.thorough { "thorough" } else { "quick" },
@@ -142,6 +148,7 @@ impl<'a> Ctx<'a> {
             Ok(st) => Probe::Died(match st.code() {
                 Some(137) | None => format!("killed after {timeout_s} s or by a signal (did not terminate)"),
                 Some(134) => "aborted (memory allocation failure: unbounded growth)".to_string(),
+                Some(66) if std::env::var("ASAN_OPTIONS").is_ok() => "stopped by the sanitizer's resident-set limit (unbounded growth)".to_string(),
                 Some(c) => format!("exit status {c}"),
             }),
             Err(e) => Probe::Died(format!("cannot spawn: {e}")),
